@@ -440,6 +440,36 @@ def run(ctx):
     ctx.attempt(r45, ctx, rep)
     rep.rule('R4.6', 'the type families the table of R4.1 is evaluated with are the ones petl.compat binds: numeric_types = (bool, int, float, Decimal), text_type = str, binary_type = bytes')
     ctx.attempt(r46, ctx, rep)
+    rep.rule('R4.7', 'the comparison selectors (selectlt / le / gt / ge and the four range selectors) apply the bare ordering of R4.1 to the cell: no extra guard on None or on the type of the value stands between the cell and the comparison, so they agree with sort / issorted on where None and mixed types fall (C13 R13.2 imported for the ordering selectors)')
+    ctx.attempt(r47, ctx, rep)
+
+
+# ------------------------------------------------------------------------ R4.7
+def r47(ctx, rep):
+    from . import c13
+    mod = ctx.project.modules.get('petl.transform.selects')
+    if mod is None:
+        raise AnalysisError('anchor vanished: petl.transform.selects')
+    n = 0
+    for name, want in c13.SELECTORS.items():
+        if '<' not in want and '>' not in want:
+            continue
+        fn = mod.functions.get(name)
+        if fn is None:
+            raise AnalysisError('anchor vanished: selector %s' % name)
+        n += 1
+        try:
+            got, call = c13.predicate_text(fn, ctx)
+        except (c13._Composed, c13._Undecided) as e:
+            rep.undecided('R4.7', fn, 'predicate', str(e), fn.node)
+            continue
+        if got == want:
+            rep.held('R4.7', fn, 'predicate', got, fn.node)
+        else:
+            rep.violated('R4.7', fn, 'predicate', '%s applies `%s` where the ordering of R4.1 alone decides `%s`: the selector and '
+                         'sort / issorted / the other comparison selectors no longer place the same cells on the same side'
+                         % (fn.name, got, want), call)
+    ctx.floor('ordering_selectors', n, 8)
 
 
 # ------------------------------------------------------------------------ R4.6
